@@ -104,6 +104,16 @@ def _ref(*a):
         raise Skip(str(ex))
 
 
+def _peek(obj, path, default=None):
+    """Read an internal attribute chain defensively: internals of a modified Tangelo may be absent, which must never
+    turn into a harness error."""
+    for name in path.split("."):
+        obj = getattr(obj, name, None)
+        if obj is None:
+            return default
+    return obj
+
+
 def _tuples(geom):
     return [(a, tuple(float(v) for v in x)) for a, x in geom]
 
@@ -244,6 +254,8 @@ def _expected_fragment_geometry(geom, sel, links):
 def _check_fragment_geometry(geom, frag_geom, sel, links, what):
     base, caps = _expected_fragment_geometry(geom, sel, links)
     k = len(base)
+    if frag_geom is None:
+        raise Fail(f"{what}: no geometry attributed to the fragment", sig="oniom:distribute-atoms:missing")
     got = list(frag_geom)
     if len(got) != k + sum(c for _, c in caps):
         raise Fail(f"{what}: fragment has {len(got)} atoms, expected {k + sum(c for _, c in caps)}", sig="oniom:distribute-atoms:count")
@@ -304,8 +316,8 @@ def oniom_same_level(ctx):
 
         def geometry_checks(frs):
             for m, i in zip(case["models"], i_mod):
-                _check_fragment_geometry(sysd["geom"], frs[i].geometry, m["sel"], m["links"], "model fragment")
-            _check_fragment_geometry(sysd["geom"], frs[i_sys].geometry, None, None, "system fragment")
+                _check_fragment_geometry(sysd["geom"], getattr(frs[i], "geometry", None), m["sel"], m["links"], "model fragment")
+            _check_fragment_geometry(sysd["geom"], getattr(frs[i_sys], "geometry", None), None, None, "system fragment")
 
         e, frs = _run_oniom(ONIOMProblemDecomposition, Fragment, prob, case.get("twice", False), geometry_checks)
         models = [frs[i] for i in i_mod]
@@ -313,7 +325,7 @@ def oniom_same_level(ctx):
         if not np.isfinite(e) or abs(e - ref) > ETOL:
             raise Fail(f"ONIOM with model fragment(s) at identical high/low level gives {e!r}, E_low(system)={ref!r} "
                        f"({case['low']}/{case['low_basis']}), difference {e - ref:.3e}",
-                       sig="oniom:same-level", e_fragments=[float(f.e_fragment) for f in frs])
+                       sig="oniom:same-level", e_fragments=[_peek(f, "e_fragment") for f in frs])
         n = len(geom)
         proper = any((m["sel"] if isinstance(m["sel"], int) else len(m["sel"])) < n or m["links"] for m in case["models"])
         labs = _oniom_labels(case, case["models"]) | {"low:" + case["low"], "elow-sign-exercised"} | _share_labels(case, prob)
@@ -357,16 +369,16 @@ def oniom_whole_model(ctx):
             prob.add(case["low"], s_sys, case["low_basis"], charge=q, spin=s)
 
         def geometry_checks(frs):
-            _check_fragment_geometry(sysd["geom"], frs[i_model].geometry, case["sel"], None, "whole-system model fragment")
+            _check_fragment_geometry(sysd["geom"], getattr(frs[i_model], "geometry", None), case["sel"], None, "whole-system model fragment")
             for m, i in zip(case["extras"], i_ext):
-                _check_fragment_geometry(sysd["geom"], frs[i].geometry, m["sel"], None, "extra model fragment")
+                _check_fragment_geometry(sysd["geom"], getattr(frs[i], "geometry", None), m["sel"], None, "extra model fragment")
 
         e, frs = _run_oniom(ONIOMProblemDecomposition, Fragment, prob, case.get("twice", False), geometry_checks)
         ref = _ref(sysd["geom"], case["high"], case["high_basis"], q, s)
         if not np.isfinite(e) or abs(e - ref) > ETOL:
             raise Fail(f"ONIOM whose model is the whole system (selected_atoms={case['sel']}) gives {e!r}, "
                        f"E_high(system)={ref!r} ({case['high']}/{case['high_basis']}), difference {e - ref:.3e}",
-                       sig="oniom:whole-model", e_fragments=[float(f.e_fragment) for f in frs])
+                       sig="oniom:whole-model", e_fragments=[_peek(f, "e_fragment") for f in frs])
         differs = (case["low"], case["low_basis"]) != (case["high"], case["high_basis"])
         labs = _oniom_labels(case, [{"sel": case["sel"]}] + case["extras"])
         labs |= _share_labels(case, prob)
@@ -412,8 +424,10 @@ def _run_dmet(geom, charge, spin, basis, fragment_atoms, solvers, loc, optimizer
     e = float(np.real(e))
     mu = float(np.real(d.chemical_potential))
     e_attr = getattr(d, "dmet_energy", None)
-    nao = int(d.molecule.nao_nr())
-    nelec = int(d.orbitals.number_active_electrons)
+    nao_fn = _peek(d, "molecule.nao_nr")
+    nao = int(nao_fn()) if callable(nao_fn) else None
+    nelec = _peek(d, "orbitals.number_active_electrons")
+    nelec = None if nelec is None else int(nelec)
     # own evaluation AT the returned chemical potential (recomputes every fragment from scratch; does not rely on what
     # simulate() left behind): electron-number mismatch, energy, and the fragment+bath sizes it stores
     resid = float(np.real(d._oneshot_loop(d.chemical_potential, save_results=True)))
@@ -426,7 +440,7 @@ def _run_dmet(geom, charge, spin, basis, fragment_atoms, solvers, loc, optimizer
         except (TypeError, IndexError):
             spans = None
     return {"e": e, "e_attr": None if e_attr is None else float(np.real(e_attr)), "e_at_mu": e_at_mu, "mu": mu, "spans": spans,
-            "nao": nao, "resid": resid, "nelec": nelec, "n_iter": d.n_iter, "frag_counts": list(d.fragment_atoms)}
+            "nao": nao, "resid": resid, "nelec": nelec, "frag_counts": _peek(d, "fragment_atoms")}
 
 
 @part("dmet", quick=32, thorough=1100)
@@ -457,7 +471,7 @@ def dmet(ctx):
 
         ne = sum(H.Z[a] for a, _ in geom) - q
         for r, fr, tag in ((r1, frags, "original"), (r2, frags2, "relabelled")):
-            if r["nelec"] != ne:
+            if r["nelec"] is not None and r["nelec"] != ne:
                 raise Fail(f"DMET ({tag}) counts {r['nelec']} electrons, molecule has {ne}", sig="dmet:electron-total")
             if not np.isfinite(r["resid"]) or abs(r["resid"]) > rtol:
                 raise Fail(f"after simulate() ({tag}, optimizer {case['optimizer']}) the fragment electron numbers sum to "
@@ -467,7 +481,8 @@ def dmet(ctx):
                            f"{r['e_attr']!r}) with chemical_potential={r['mu']!r}, but the DMET energy evaluated at that chemical "
                            f"potential is {r['e_at_mu']!r}; difference {r['e'] - r['e_at_mu']:.3e}",
                            sig="dmet:energy-not-at-returned-mu")
-            if sorted(r["frag_counts"]) != sorted(len(f) for f in fr):
+            if isinstance(r["frag_counts"], list) and all(isinstance(c, int) for c in r["frag_counts"]) \
+                    and sorted(r["frag_counts"]) != sorted(len(f) for f in fr):
                 raise Fail(f"fragment sizes {r['frag_counts']} for request {fr}", sig="dmet:fragment-sizes")
         if abs(r1["e"] - r2["e"]) > etol:
             raise Fail(f"DMET energy changes under relabelling of the atoms: {r1['e']!r} (fragments {fa1}) vs {r2['e']!r} "
@@ -480,7 +495,7 @@ def dmet(ctx):
         if flat != sorted(flat) or [a for f in frags2 for a in f] != list(range(n)):
             labs.add("nested-list-reorders-atoms")
         all_fci = solvers == "fci" or (isinstance(solvers, list) and set(solvers) == {"fci"})
-        known = r1["spans"] is not None and r2["spans"] is not None
+        known = None not in (r1["spans"], r2["spans"], r1["nao"], r2["nao"])
         spanning = known and all(s == r1["nao"] for s in r1["spans"]) and all(s == r2["nao"] for s in r2["spans"])
         if spanning and all_fci:
             e_fci = _ref(geom, "FCI", basis, q, spin)
